@@ -1,6 +1,6 @@
 """Per-property checks.  Each check_<ID>(tier, seed) returns 0 (held) or 1
 (VIOLATION printed); ToolError -> exit 2 in vcheck."""
-import json, os, time, subprocess, sys
+import json, os, time, subprocess, sys, functools
 import vlib, corpora
 from vlib import ToolError
 
@@ -105,7 +105,7 @@ def base_cov(parts, rule, spec_names):
 
 def trace_check(prop, tier, seed, sched, spec, cfg, *, level="model_checking", rule, assumptions,
                 serde=True, profile="dev", nshards=14, timeout=3000, deque=False, weight=None, extra_cov=None,
-                distinct_fn=None, second_spec=None, second_filter=None, extra_runs=()):
+                distinct_fn=None, second_spec=None, second_filter=None, extra_runs=(), release_every=0):
     t0 = time.time()
     events, cases, res = run_trace(prop, sched, spec, cfg, serde=serde, profile=profile, nshards=nshards,
                                    timeout=timeout, deque=deque, weight=weight)
@@ -122,9 +122,20 @@ def trace_check(prop, tier, seed, sched, spec, cfg, *, level="model_checking", r
         nviol += report_rejections(prop, res2["rejected"], sched)
         parts.append(([], cases2, res2))
         names.append(second_spec)
-    for tag, sched2, spec2, w2 in extra_runs:
-        # a further corpus recorded and validated against its own trace specification
-        ev3, cs3, res3 = run_trace(tag, sched2, spec2 + ".tla", spec2 + ".cfg", serde=serde, profile=profile, timeout=timeout, weight=w2)
+    if release_every:
+        # the statement has no build profile in it: every release_every-th case is recorded again with the optimised
+        # build (no overflow checks, no debug assertions) and validated against the same specification
+        sub = vlib.Sched()
+        sub.cases = sched.cases[::release_every]
+        ev4, cs4, res4 = run_trace(prop + "-release", sub, spec, cfg, serde=serde, profile="release", nshards=nshards, timeout=timeout, deque=deque, weight=weight)
+        nviol += report_rejections(prop, res4["rejected"], sub)
+        parts.append((ev4, cs4, res4))
+        names.append(spec.replace(".tla", "") + " (release build)")
+        events = events + ev4
+    for xr in extra_runs:
+        # a further corpus recorded and validated against its own trace specification (optionally in another build profile)
+        tag, sched2, spec2, w2 = xr[:4]
+        ev3, cs3, res3 = run_trace(tag, sched2, spec2 + ".tla", spec2 + ".cfg", serde=serde, profile=xr[4] if len(xr) > 4 else profile, timeout=timeout, weight=w2)
         nviol += report_rejections(prop, res3["rejected"], sched2)
         parts.append((ev3, cs3, res3))
         names.append(spec2)
@@ -143,15 +154,29 @@ COMMON_ASSUME = ["TLC's evaluator and the CommunityModules Java overrides (Bitwi
 
 
 def check_C01(tier, seed):
+    import random
     S = corpora.c01_corpus(seed, tier)
-    return trace_check("C01", tier, seed, S, "Trace_Alg.tla", "Trace_Alg.cfg",
+    # states whose SUCCESSOR is a structured state (a special case on the new state is invisible from unit, structured
+    # and random start states)
+    rng = random.Random(seed * 131 + 1)
+    for kind in corpora.XO:
+        nat = corpora.native_op(kind)
+        targets = corpora.structured_seeds(kind, rng)
+        if tier == "quick":
+            targets = rng.sample(targets, 6)
+        ops = []
+        for t, sd in preimage_seeds(kind, nat, targets):
+            ops += [{"op": "from_seed", "g": 1, "kind": kind, "seed": sd}, {"op": nat, "g": 1, "n": 3}]
+        if ops:
+            S.case("%s states stepping onto structured states" % kind, ops)
+    return trace_check("C01", tier, seed, S, "Trace_Alg.tla", "Trace_Alg.cfg", release_every=3,
                        rule="for each of the 14 linear generators: every unit-bit seed (complete GF(2) basis of the state space and of the seed decoding) stepped twice; structured scrambler classes (carry chains of every length, multiplier wrap, all-ones, high bits); random seeds x K consecutive native outputs with the full state image compared after every call; SplitMix64 counters around the 2^64 wrap with both finalizers. One TLC state per recorded event; distinct = distinct events",
                        assumptions=COMMON_ASSUME + ["agreement on a basis extends to all states for the GF(2)-linear engine only; the non-linear output scramblers are covered by structured classes and random states, a bound not a proof"])
 
 
 def check_C04(tier, seed):
     S = corpora.c04_corpus(seed, tier)
-    return trace_check("C04", tier, seed, S, "Trace_Alg.tla", "Trace_Alg.cfg",
+    return trace_check("C04", tier, seed, S, "Trace_Alg.tla", "Trace_Alg.cfg", release_every=3,
                        rule="all 128 unit-bit seeds of XorShiftRng (complete transition matrix and seed word order) stepped 5 times, structured states, random seeds x K consecutive next_u32 with state image compared after every call",
                        assumptions=COMMON_ASSUME + ["xor128 is GF(2)-linear with identity output: agreement on a basis plus linearity is agreement on all 2^128 states"])
 
@@ -336,6 +361,20 @@ def c05_schedule(tier, seed, mc):
                         w.append(("fill_bytes", n))
                         w.append(rng.choice([("next_u32", 0), ("next_u64", 0), ("next_u32", 0)]))
                     S.case("%s all lengths %d" % (kind, lo), corpora.api_case_ops(kind, w, rng))
+            if kind != "JitterRng":
+                # long requests (where a bulk path of a hand-written fill_bytes would start), at every residue mod 8
+                big = [1023, 1024, 1025, 1026, 1027, 1028, 1029, 1030, 1031, 1044, 1100, 2047, 2048, 2049, 2052, 4096, 4099, 8197]
+                if block:
+                    bbk = {"Hc128": 64, "Isaac": 1024, "Isaac64": 2048}[name]
+                    big = [3 * bbk, 3 * bbk + 1, 4 * bbk + 5, 5 * bbk - 3, 2 * bbk + bbk // 2 + 2]
+                if tier != "quick":
+                    big += [16384 + r for r in range(8)] + [65536, 65537, 65541]
+                w = []
+                for n in big:
+                    w.append(("fill_bytes", n))
+                    w.append(rng.choice([("next_u32", 0), ("next_u64", 0), ("next_u32", 0)]))
+                    w.append(rng.choice([("next_u32", 0), ("next_u64", 0), ("fill_bytes", 3)]))
+                S.case("%s long requests" % kind, corpora.api_case_ops(kind, w, rng), weight=sum(big) // 8 + 200)
             # seeded random interleavings
             nrand = (3 if tier == "quick" else 40)
             bb = {"Hc128": 64, "Isaac": 1024, "Isaac64": 2048}.get(name)
@@ -423,6 +462,11 @@ def check_C14(tier, seed):
         pan = only_panics(res["rejected"])
         other += len(res["rejected"]) - len(pan)
         nviol += report_rejections("C14", pan, S)
+    # Hc128Rng past word 2^32, in the optimised build with overflow checks (16 GiB of keystream in about 20 s)
+    Sv = corpora.very_far_corpus(seed)
+    ev, cs, res = run_trace("C14-veryfar", Sv, "Trace_Pair.tla", "Trace_Pair.cfg", profile="o3chk")
+    parts.append((ev, cs, res))
+    nviol += report_rejections("C14", only_panics(res["rejected"]), Sv)
     # panic search over many seeds (native, no trace per seed); whatever it finds is replayed as an ordinary
     # schedule and decided by the trace specification like every other event
     binp = vlib.build_harness()
@@ -450,7 +494,7 @@ def check_C14(tier, seed):
         parts.append((ev, cs, res))
         pan = only_panics(res["rejected"])
         nviol += report_rejections("C14", pan, S4)
-    cov = base_cov(parts, "overflow-checked dev build; every operation wrapped in catch_unwind; the total specification expects exactly one panic (set_rounds(0)); hostile corpora: JitterRng timers with deltas +-(2^31-1), -2^31, 2^31, 2^32+-1, 2^63, u64 wrap-around, strictly decreasing, ping-pong between values 2^31 apart, in next_*/fill_bytes/timer_stats and across all 400 probes of test_timer; test_timer over timers with every mean delta variation 0..40 and 2^k-1, 2^k, 2^k+1 up to 2^33 (then set_rounds); all-0xFF / all-zero / high-bit seeds and extreme u64 seeds of all 19 seedable types with fill_bytes lengths 0..17, block size +-1 (and 100000 in thorough) interleaved with next_*; jump/long_jump on all-ones states; positions past 2^8 and 2^16 blocks / words of every type (skipped natively, only a digest recorded). distinct = distinct recorded events",
+    cov = base_cov(parts, "overflow-checked dev build; every operation wrapped in catch_unwind; the total specification expects exactly one panic (set_rounds(0)); hostile corpora: JitterRng timers with deltas +-(2^31-1), -2^31, 2^31, 2^32+-1, 2^63, u64 wrap-around, strictly decreasing, ping-pong between values 2^31 apart, in next_*/fill_bytes/timer_stats and across all 400 probes of test_timer; test_timer over timers with every mean delta variation 0..40 and 2^k-1, 2^k, 2^k+1 up to 2^33 (then set_rounds); all-0xFF / all-zero / high-bit seeds and extreme u64 seeds of all 19 seedable types with fill_bytes lengths 0..17, block size +-1 (and 100000 in thorough) interleaved with next_*; jump/long_jump on all-ones states; positions past 2^8 and 2^16 blocks / words of every type (skipped natively, only a digest recorded) and Hc128Rng past word 2^32 (optimised build with overflow checks). distinct = distinct recorded events",
                    ["Trace_Jitter", "Trace_Stream", "Trace_Alg"])
     cov["panic_scan"] = {"seeds_per_kind_constructed_three_ways_and_driven": scanned, "panicking_seeds_found": len(S4.cases)}
     cov["panics_observed"] = sum(1 for e, _, _ in parts for x in e if "panic" in x)
@@ -594,6 +638,9 @@ def check_C16(tier, seed):
                     ops.append({"op": op, "g": a})
             S.case("handout cover #%d rounds=%d" % (wi, r), ops)
     special_value_cases(S, seed)
+    # a fresh collection reads the timer at least `rounds` times however long the clock stands still in between
+    corpora.stuck_run_cases(S, rng, (66, 70, 260), 230)
+    corpora.stuck_run_cases(S, rng, (70, 1030), 2)
     rc = trace_check("C16", tier, seed, S, "Trace_Jitter.tla", "Trace_Jitter.cfg", weight=jit_weight,
                      rule="timer scripts constructed so that the first collected value is 0, all ones or has a zero / all-ones half are run through the same discipline. TLC explores the hand-out machine JitterApi (collections as tokens, <=3 instances incl. clone of clone, all interleavings of next_u32/next_u64/fill_bytes(n)/clone) and checks AtMostOnce, PendingIsHighHalfOfOwnValue and FreshOrPendingHalf; a negative control (Clone copying the flag) must fail; every edge of the projected graph (alive, pending flags) is executed on real JitterRng instances with their own scripted timer cursors, and Trace_Jitter, which executes the same plans on concrete pools, validates values, flags and readings consumed. distinct = distinct recorded events",
                      assumptions=JIT_ASSUME + ["fill_bytes(n in 1..4) with a half pending is left open between C05's and C16's wording: both plans are admitted"],
@@ -728,11 +775,91 @@ def check_C15(tier, seed):
                 print("  %s has GF(2) rank %s < 64; inputs 0 and 0x%016x give the same pool on the real code" % (names[kind], rank, k))
             else:
                 raise ToolError("rank-deficient map %s but the collision did not reproduce on the code:\n%s" % (kind, rc["out"][-1500:]))
+    # special inputs and outputs (where a guard such as "never leave the pool at zero" would sit): the affine map
+    # read off the basis predicts them; where the code answers something else the map is not affine after all, and the
+    # affine preimage of the code's answer is a second input with the same image - replayed and confirmed like every
+    # other collision.  The linear algebra here only proposes inputs.
+    img = {}
+    for e in events:
+        if isinstance(e.get("tag"), list) and len(e["tag"]) == 2 and e["tag"][0] in names and "pool" in (e.get("obs") or {}):
+            img[(e["tag"][0], e["tag"][1])] = vlib.from_limbs(e["obs"]["pool"])
+    M64 = (1 << 64) - 1
+    probes_run = 0
+
+    def map_ops(kind, x, tag, rd):
+        """ops applying map `kind` to input x; the readings the call consumes are appended to rd and the cursor is
+        re-seated on them first"""
+        if kind == "st":
+            return [{"op": "set_pool", "g": 1, "pool": vlib.u64(x)}, {"op": "stir", "g": 1, "tag": tag}]
+        if kind == "nx":
+            return [{"op": "seek", "g": 1, "pos": 0}, {"op": "set_pool", "g": 1, "pool": vlib.u64(x)}, {"op": "next_u64", "g": 1, "tag": tag}]
+        pos = len(rd)
+        if kind in ("lp", "lv"):
+            rd.extend([C, C + 1] if kind == "lp" else [C, R1, R2, C + 1])
+            pool = x
+        else:
+            rd.extend([x, (x + 1) & M64] if kind == "lt" else [x, R1, R2, (x + 1) & M64])
+            pool = P0
+        return [{"op": "seek", "g": 1, "pos": pos}, {"op": "set_pool", "g": 1, "pool": vlib.u64(pool)},
+                {"op": "timer_stats", "g": 1, "var": kind in ("lv", "tv"), "tag": tag}]
+
+    def sched_for(kind, pairs):
+        rd = list(S.nx_readings) if kind == "nx" else []
+        body = []
+        for x, tag in pairs:
+            body += map_ops(kind, x, tag, rd)
+        return [{"op": "reset"}, {"op": "timer", "t": 1, "readings": [vlib.u64(v) for v in (rd or [0])], "cont": [vlib.u64(1009)]}, {"op": "jit_new", "g": 1, "t": 1}] + body
+
+    def run_map(kind, xs):
+        cs, ct = os.path.join(wd, "p.ndjson"), os.path.join(wd, "pt.ndjson")
+        vlib.write_ndjson(cs, sched_for(kind, [(x, ["probe", kind, i]) for i, x in enumerate(xs)]))
+        vlib.drive(binp, cs, ct)
+        out = {}
+        for e in vlib.read_ndjson(ct):
+            if isinstance(e.get("tag"), list) and e["tag"][0] == "probe" and "pool" in (e.get("obs") or {}) and "panic" not in e:
+                out[e["tag"][2]] = vlib.from_limbs(e["obs"]["pool"])
+        return [out.get(i) for i in range(len(xs))]
+    for kind in names:
+        if ranks.get(names[kind], {}).get("status") != "affine" or ranks[names[kind]]["rank"] != 64 or (kind, -1) not in img:
+            continue
+        c0 = img[(kind, -1)]
+        cols = [img[(kind, i)] ^ c0 for i in range(64)]
+        predict = lambda x: c0 ^ functools.reduce(lambda a, i: a ^ (cols[i] if x >> i & 1 else 0), range(64), 0)
+        xs = [0, M64, 1, 1 << 63]
+        for y in (0, M64, c0, 1):
+            x = gf2_solve(cols, y ^ c0)
+            if x is not None:
+                xs.append(x)
+        got = run_map(kind, xs)
+        probes_run += len(xs)
+        for x, y in zip(xs, got):
+            if y is None or y == predict(x):
+                continue
+            q = gf2_solve(cols, y ^ c0)           # the affine preimage of what the code answered
+            if q is None or q == x:
+                continue
+            got2 = run_map(kind, [q])
+            if got2[0] != y:
+                continue
+            ops = sched_for(kind, [(x, ["confirm", kind, 0]), (q, ["confirm", kind, 1])])[1:]
+            cs, ct = os.path.join(wd, "c3.ndjson"), os.path.join(wd, "ct3.ndjson")
+            vlib.write_ndjson(cs, [{"op": "reset"}] + ops)
+            vlib.drive(binp, cs, ct)
+            rc3 = vlib.run_tlc(os.path.join(vlib.SPEC, "alg", "ALG_Confirm.tla"), os.path.join(vlib.SPEC, "alg", "ALG_Confirm.cfg"),
+                               os.path.join(wd, "metac3"), env={"TRACE": ct}, timeout=300)
+            if '<<"COLLISION", TRUE>>' in rc3["out"]:
+                nviol += 1
+                path = vlib.write_replay("C15", {"property": "C15", "case": "collision of " + names[kind], "signature": "collision|special|" + kind,
+                                                 "schedule": [{"op": "reset"}] + ops, "inputs": ["0x%016x" % x, "0x%016x" % q],
+                                                 "note": "the map is affine on the basis and on random triples but not at this special input / output; the two tagged events leave the same pool: two different inputs are merged"})
+                print("VIOLATION property=C15 replay=%s" % path)
+                print("  %s: inputs 0x%016x and 0x%016x give the same result 0x%016x on the real code (a special case breaks the bijection)" % (names[kind], x, q, y))
+                break
     if rot != 64:
         raise ToolError("specification-level rotl7 is not a permutation?!")
     cov = {"states": max(1, r["states"]), "transitions": max(1, r["states"] - 1), "traces_validated_against_impl": 1,
            "samples": [e for e in events if e.get("tag") in (["lp", 3], ["lt", 63], ["st", 0])][:3],
-           "maps": ranks, "rotl7_spec_rank": rot, "undecided_not_affine": undecided,
+           "maps": ranks, "special_input_output_probes": probes_run, "rotl7_spec_rank": rot, "undecided_not_affine": undecided,
            "events_recorded": len(events), "exhaustive": not undecided,
            "exhaustive_scope": "rank 64 of the linear part of an affine map over GF(2)^64 decides bijectivity for all 2^64 inputs; affinity of the code's maps is sampled on random triples (a non-affine map is reported as undecided here and is C12's business)",
            "rule": "basis images f(e_i), f(0) of the three pool maps recorded from the real code through the hook; affinity triples; GF(2) rank with kernel-vector extraction inside TLC; a kernel vector is replayed on the code as a collision",
@@ -758,9 +885,10 @@ def step_weight(evs):
 
 def check_C02(tier, seed):
     S = corpora.block_alg_corpus("Hc128Rng", seed, tier, 32, 2200, 2)
-    return trace_check("C02", tier, seed, S, "Trace_Alg.tla", "Trace_Alg.cfg", weight=step_weight, timeout=3400,
+    return trace_check("C02", tier, seed, S, "Trace_Alg.tla", "Trace_Alg.cfg", weight=step_weight, timeout=3400, release_every=6,
+                       extra_runs=[("C02-veryfar", corpora.very_far_corpus(seed), "Trace_Pair", None, "o3chk")],
                        rule="Hc128Rng::from_seed + next_u32 on unit-bit seeds (every key and IV bit), structured seeds, random seeds x 32..96 words, and long runs of 2200 consecutive words (P phase, Q phase, every 16-word refill, the 1024-step wrap and into the second cycle); every word is compared by TLC with Wu's HC-128 written in paper form (Hc128.tla: W expansion, 1024 set-up steps, g1/g2/h1/h2, boxminus indices). distinct = distinct recorded events",
-                       assumptions=COMMON_ASSUME + ["sampled seeds and positions < 2200: HC-128 is non-linear, agreement is established on the corpus, not for all 2^256 seeds; the usize counter wrap is not reachable"])
+                       assumptions=COMMON_ASSUME + ["sampled seeds and positions < 2200: HC-128 is non-linear, agreement is established on the corpus, not for all 2^256 seeds; values are validated up to word 40 000; beyond that, up to past word 2^32 (optimised build with overflow checks), only that a keystream word is produced at all; the usize counter wrap is not reachable"])
 
 
 def check_C03(tier, seed):
@@ -771,6 +899,12 @@ def check_C03(tier, seed):
         ev, cs, res = run_trace("C03-" + kind, S, "Trace_Alg.tla", "Trace_Alg.cfg", weight=step_weight, timeout=3400)
         parts.append((ev, cs, res))
         nviol += report_rejections("C03", res["rejected"], S)
+        # every 6th case again with the optimised build (the statement has no build profile in it)
+        sub = vlib.Sched()
+        sub.cases = S.cases[::6]
+        ev, cs, res = run_trace("C03-release-" + kind, sub, "Trace_Alg.tla", "Trace_Alg.cfg", weight=step_weight, timeout=3400, profile="release")
+        parts.append((ev, cs, res))
+        nviol += report_rejections("C03", res["rejected"], sub)
     cov = base_cov(parts, "IsaacRng / Isaac64Rng from_seed + native next on unit-bit seeds x the complete first block (all 256 indices), structured and random seeds x 3 blocks, long runs past word 10000 (thorough); every word compared by TLC with Jenkins' ISAAC / ISAAC-64 in reference shape (Isaac.tla: mix, randinit(TRUE) with zero-extended seed, isaac(), results consumed from the end); the golden-ratio pre-mix constants are derived in the spec. distinct = distinct recorded events", ["Trace_Alg"])
     vlib.write_evidence("C03", tier, seed, "model_checking", cov, COMMON_ASSUME + ["sampled seeds: ISAAC is non-linear; agreement is established on the corpus, not for all seeds"], time.time() - t0, nviol)
     return 1 if nviol else 0
@@ -806,7 +940,7 @@ def check_C08(tier, seed):
     if len(adv) != 8:
         raise ToolError("ALG_Seed did not print the 8 adversarial arguments")
     S = corpora.c08_corpus(seed, tier, adv)
-    return trace_check("C08", tier, seed, S, "Trace_Alg.tla", "Trace_Alg.cfg", weight=step_weight,
+    return trace_check("C08", tier, seed, S, "Trace_Alg.tla", "Trace_Alg.cfg", weight=step_weight, release_every=3,
                        rule="(1) TLC explores the seeding protocol (module Seeding: zero-seed remap, redraw loop, fallible sources) exhaustively in a small world and checks NeverZeroState / ZeroSeedDocumented / NonZeroSeedVerbatim, with a negative control; (2) TLC checks the certificate that the SplitMix64 finalizer is a bijection with Mix(0)=0, so a seed word of seed_from_u64(x) is zero for exactly one x per position, and prints those 8 arguments; (3) on the real types: the all-zero seed of every size, almost-zero seeds, seed_from_u64 of the adversarial/neighbouring/random arguments, from_rng/try_from_rng from sources with 0..3 leading all-zero blocks — constructed state (serde image), == and first outputs validated by TLC against the same Seeding operators resolved with module Alg. distinct = distinct recorded events",
                        assumptions=COMMON_ASSUME + ["the protocol is explored exhaustively only in the small world (2-byte seeds over {0,1}); on the real types it is a corpus",
                                                     "the bijection certificate covers all 2^64 arguments of seed_from_u64 for the xoshiro family"],
@@ -821,7 +955,7 @@ def check_C09(tier, seed):
     wd = vlib.workdir("mc-C09")
     mc = run_mc("MC_Seeding", "MC_Seeding.cfg", wd)
     S = corpora.c09_corpus(seed, tier)
-    return trace_check("C09", tier, seed, S, "Trace_Alg.tla", "Trace_Alg.cfg", weight=step_weight, timeout=3400,
+    return trace_check("C09", tier, seed, S, "Trace_Alg.tla", "Trace_Alg.cfg", weight=step_weight, timeout=3400, release_every=4,
                        rule="the seeding protocol is model-checked exhaustively in a small world (ErrIffSourceFailed, CursorAdvance, RedrawOnlyOnZeroBlock, from_rng/try_from_rng agreement); on all 19 seedable types: seed_from_u64(x) for boundary and random x must give the generator denoted by the documented expansion (SplitMix64 stream / rand_core's PCG32 / ISAAC key words with one pass) — state image where available and 8..40 outputs; from_rng twice from one source (cursor, exact byte count, 1024/2048 bytes and two passes for ISAAC); try_from_rng against sources failing at call 1/2/3, with partial writes and sticky failures. distinct = distinct recorded events",
                        assumptions=COMMON_ASSUME + ["u64 arguments and source byte streams are a corpus; the fallible-source space is exhaustive only in the small-world model"],
                        extra_cov={"mc_model": {"states_generated": mc["states"], "distinct": mc["distinct"]}})
@@ -914,9 +1048,38 @@ def check_C11(tier, seed):
     ce = run_mc("MC_CloneEq", "MC_CloneEq_Isaac64.cfg", wd, workers=8)
     run_mc("MC_CloneEq", "neg/MC_CloneEq_Isaac64_nohalf.cfg", wd, workers=2, expect_violation=True)
     S = corpora.c11_corpus(seed, tier, paths)
+    # points of the stream that cannot be reached by running: the ISAAC block counter c just before it wraps (after
+    # 2^32 resp. 2^64 blocks).  A recorded image of each generator gets c := all ones (and all ones - 1), is loaded, run
+    # over the block boundary (c becomes 0 resp. all ones) and snapshotted there like everywhere else.
+    import random
+    rng = random.Random(seed + 1111)
+    binp = vlib.build_harness()
+    sp, tp = os.path.join(wd, "img_s.ndjson"), os.path.join(wd, "img_t.ndjson")
+    kinds2 = ("IsaacRng", "Isaac64Rng")
+    ops = [{"op": "reset"}]
+    for i, kind in enumerate(kinds2):
+        ops += [{"op": "from_seed", "g": i + 1, "kind": kind, "seed": [rng.getrandbits(8) for _ in range(32)]}, {"op": "next_u32", "g": i + 1, "n": 5}, {"op": "ser", "g": i + 1}]
+    vlib.write_ndjson(sp, ops)
+    vlib.drive(binp, sp, tp)
+    for e in vlib.read_ndjson(tp):
+        if e.get("e") == "ser" and "image" in e:
+            kind = kinds2[e["g"] - 1]
+            wb = 4 if kind == "IsaacRng" else 8
+            coff = len(e["image"]) - wb                 # c is the last field of the core, the core the last field of the wrapper
+            for dec in (0, 1):
+                img = list(e["image"])
+                img[coff:coff + wb] = list(((1 << (8 * wb)) - 1 - dec).to_bytes(wb, "little"))
+                cops = [{"op": "de_image", "kind": kind, "image": img, "to": 1}]
+                cops += [{"op": "next_u32", "g": 1, "n": 255 if kind == "IsaacRng" else 2 * 255}]       # into the next block: c has advanced by one
+                cops += [{"op": "clone", "g": 1, "to": 4}, {"op": "ser", "g": 1}, {"op": "de", "g": 1, "to": 2, "fmt": "bincode"}, {"op": "de", "g": 1, "to": 3, "fmt": "json"},
+                         {"op": "eq", "a": 1, "b": 2}]
+                cops += corpora.lockstep([("next_u32", 0), ("next_u64", 0), ("fill_bytes", 1030 if kind == "IsaacRng" else 2060), ("next_u32", 0)], [1, 4, 2, 3])
+                cops += [{"op": "ser", "g": 2}, {"op": "de", "g": 2, "to": 5, "fmt": "bincode"}]
+                cops += corpora.lockstep([("next_u32", 0), ("next_u64", 0)], [2, 5])
+                S.case("%s snapshot with the block counter at its wrap (c = max - %d before the block)" % (kind, dec), cops, weight=600)
     ev, cs, res = run_trace("C11", S, "Trace_Pair.tla", "Trace_Pair.cfg")
     nviol = report_rejections("C11", res["rejected"], S)
-    cov = base_cov([(ev, cs, res)], "for the 18 serializable types: snapshot (bincode and serde_json) at buffer states taken from TLC's state graph of the API machine (index x half_used of IsaacRng / Isaac64Rng, after refills) and after random histories and jumps of the plain types; the restored generators, the original and a clone taken before serializing are then driven in lock-step across >= 1 refill with mixed operations (and ==, and a second round trip); Trace_Pair rejects any observed divergence, a failed deserialization, or == false between original and restored. distinct = distinct recorded events", ["Trace_Pair"])
+    cov = base_cov([(ev, cs, res)], "ISAAC snapshots with the block counter at its wrap (images with c patched to its maximum, run over the block boundary); for the 18 serializable types: snapshot (bincode and serde_json) at buffer states taken from TLC's state graph of the API machine (index x half_used of IsaacRng / Isaac64Rng, after refills) and after random histories and jumps of the plain types; the restored generators, the original and a clone taken before serializing are then driven in lock-step across >= 1 refill with mixed operations (and ==, and a second round trip); Trace_Pair rejects any observed divergence, a failed deserialization, or == false between original and restored. distinct = distinct recorded events", ["Trace_Pair"])
     cov["mc_models"] = {n: {"states_generated": r["states"], "edges": len(e)} for n, (r, e) in mc.items() if n in ("Isaac", "Isaac64")}
     cov["mc_models"]["CloneEq (two instances of a BlockRng64 machine with Ser/De)"] = {
         "states_generated": ce["states"], "distinct": ce["distinct"], "invariants": ["RestoreIsIdentical", "SerDoesNotDisturb", "EqIsCongruence", "CloneIsEqual"],
@@ -938,11 +1101,41 @@ def check_C17(tier, seed):
         walks[kind] = cover.cover_walks(init, g, few, max_walk=40)
     S = corpora.c17_corpus(seed, tier, walks)
     special_value_cases(S, seed, debug=True)
+    # scan: the Debug text of freshly seeded generators (and after one block) over millions of counter seeds, natively
+    # in the optimised harness; seeds whose text differs from the majority are put next to an ordinary seed in an
+    # ordinary case, so that Trace_Debug decides
+    rel = vlib.build_harness("release", True)
+    sp, tp = os.path.join(wd, "scan.s"), os.path.join(wd, "scan.t")
+    big = tier != "quick"
+    plan = [("Hc128Rng", 6000000 if not big else 40000000, 0), ("Hc128Core", 500000, 0), ("XorShiftRng", 4000000 if not big else 40000000, 0),
+            ("IsaacRng", 700000 if not big else 6000000, 0), ("Isaac64Rng", 700000 if not big else 6000000, 0),
+            ("IsaacCore", 200000, 0), ("Isaac64Core", 200000, 0), ("Hc128Rng", 300000, 17), ("IsaacRng", 100000, 300), ("Isaac64Rng", 100000, 300)]
+    vlib.write_ndjson(sp, [{"op": "reset"}] + [{"op": "debug_scan", "kind": kd, "n": n, "seed_len": corpora.SEEDLEN[kd], "advance": adv, "threads": 14} for kd, n, adv in plan])
+    vlib.drive(rel, sp, tp, timeout=3000)
+    scanned = {}
+    for e in vlib.read_ndjson(tp):
+        if e.get("e") != "debug_scan":
+            continue
+        scanned["%s+%d" % (e["kind"], e.get("advance", 0))] = e.get("scanned")
+        tx = e.get("texts", [])
+        if len(tx) > 1:
+            kd, adv = e["kind"], e.get("advance", 0)
+            nat = corpora.native_op(kd) if kd in corpora.WORDBYTES else None
+            ops = []
+            for gi, t in enumerate(tx[:4]):
+                k0 = t["seeds"][0]
+                sd = (list(k0.to_bytes(8, "little")) + [0] * corpora.SEEDLEN[kd])[:corpora.SEEDLEN[kd]]
+                ops.append({"op": "from_seed", "g": gi + 1, "kind": kd, "seed": sd})
+                if adv and nat:
+                    ops += [{"op": "next_u32", "g": gi + 1} for _ in range(adv)]
+                ops.append({"op": "debug", "g": gi + 1})
+            S.case("%s seeds with different Debug texts (found by the scan)" % kd, ops)
     ev, cs, res = run_trace("C17", S, "Trace_Debug.tla", "Trace_Debug.cfg", nshards=8)
     nviol = report_rejections("C17", res["rejected"], S)
     texts = sorted({e["text"] for e in ev if e.get("e") == "debug"})
     cov = base_cov([(ev, cs, res)], "{:?} and {:#?} of XorShiftRng, Hc128Rng/Hc128Core, IsaacRng/IsaacCore, Isaac64Rng/Isaac64Core and JitterRng are recorded after every operation of walks taken from TLC's state graph of the API machine and of random walks, each walk under several seeds (incl. all-zero and all-ones) resp. timer scripts; Trace_Debug learns an uninterpreted DebugFn keyed by (kind, format, history) and, for buffered types, by (kind, format, index, half_used) computed by the API machine, and rejects a second, different text for a key. distinct = distinct recorded events", ["Trace_Debug"])
     cov["distinct_debug_texts"] = len(texts)
+    cov["debug_scan_seeds_per_kind"] = scanned
     cov["debug_text_samples"] = texts[:6]
     vlib.write_evidence("C17", tier, seed, "model_checking", cov, COMMON_ASSUME[:2] + ["state leakage is detected as seed-dependence of the text: every history is run under >= 5 seeds / timer scripts; content that does not depend on seed or state is not state"], time.time() - t0, nviol)
     return 1 if nviol else 0
@@ -1117,6 +1310,35 @@ def check_C18(tier, seed):
             print("VIOLATION property=C18 replay=%s" % path)
             print("  configuration %s differs from the reference at event %d of corpus %s (case %r): %s" % (cfgname, at, name, label, "; ".join(m[:400] for m in pr["mismatch"][:1])))
             nviol += 1
+    if tier != "quick":
+        # Hc128Rng past word 2^32 (16 GiB): only in the two optimised configurations, with and without overflow checks
+        Sv = corpora.very_far_corpus(seed, digest=True)
+        sp = os.path.join(wd, "veryfar.sched")
+        vlib.write_ndjson(sp, Sv.lines())
+        tps = {}
+        for cfg in (("o3chk", True), ("release", True)):
+            tps[cfg] = os.path.join(wd, "veryfar-%s.trace" % cfg[0])
+            vlib.drive(vlib.build_harness(*cfg), sp, tps[cfg], timeout=3000)
+        evs = vlib.read_ndjson(tps[("o3chk", True)])
+        res = vlib.validate_cases("C18-veryfar", "Trace_Pair.tla", "Trace_Pair.cfg", vlib.split_events(evs), timeout=3000)
+        parts.append((evs, vlib.split_events(evs), res))
+        nviol += report_rejections("C18", res["rejected"], Sv)
+        r = vlib.run_tlc(os.path.join(vlib.SPEC, "trace", "Trace_Same.tla"), os.path.join(vlib.SPEC, "trace", "Trace_Same.cfg"), os.path.join(wd, "meta-veryfar"),
+                         env={"TRACE": tps[("o3chk", True)], "TRACE2": tps[("release", True)]}, timeout=600)
+        pr = vlib.parse_trace_result(r, 0)
+        compared += r["states"]
+        if pr["status"] == "error":
+            raise ToolError("Trace_Same failed on the very-far corpus:\n" + r["out"][-2000:])
+        if pr["status"] != "accepted":
+            other = vlib.read_ndjson(tps[("release", True)])
+            at = pr["at"]
+            path = vlib.write_replay("C18", {"property": "C18", "case": "Hc128Rng past word 2^32", "signature": "config|release|veryfar",
+                                             "configurations": ["o3chk+serde (opt-level 3, overflow checks, debug assertions)", "release+serde"],
+                                             "schedule": [{"op": "reset"}] + Sv.cases[0]["ops"], "event_index_in_trace": at,
+                                             "reference_event": evs[at - 1] if 0 < at <= len(evs) else None, "other_event": other[at - 1] if 0 < at <= len(other) else None})
+            print("VIOLATION property=C18 replay=%s" % path)
+            print("  the optimised build with overflow checks and the release build differ at event %d of the very-far corpus: %s" % (at, "; ".join(m[:400] for m in pr["mismatch"][:1])))
+            nviol += 1
     cov = base_cov(parts, "a fixed corpus (algorithm traces of all generators incl. seeding, mixed next_u32/next_u64/fill_bytes histories of all 19 seedable types, positions past 2^8 and 2^16 blocks / words reached by native skipping (digest recorded), JitterRng over scripted timers incl. deltas around 2^31/2^32 and test_timer) is executed by the harness built in every configuration; the trace of the reference configuration (dev: opt 0, overflow checks, debug assertions, serde) is validated by the trace specifications, and Trace_Same requires every other configuration's trace to be the same behaviour event by event (values, Ok/Err, panics, readings consumed). distinct = distinct recorded events", ["Trace_Alg", "Trace_Stream", "Trace_Jitter", "Trace_Same"])
     cov["configurations"] = cfginfo
     cov["events_compared_across_configurations"] = compared
@@ -1164,6 +1386,37 @@ def run_certificates(wd, tasks, maxpar=14):
     return out, hj
 
 
+def preimage_seeds(kind, op, targets, tag="pre"):
+    """Input construction: seeds whose image under `op` (a linear operation of the real type: one native step, jump,
+    long_jump) is a prescribed structured state.  The operation's matrix is read off the real code on the unit seeds
+    (harness run only), the system is solved here, and nothing is decided: the seeds are ordinary test inputs whose
+    behaviour the trace specification judges.  Returns [(target_bytes, seed_bytes)] (possibly fewer than asked)."""
+    binp = vlib.build_harness()
+    wd = vlib.workdir("preimage-%s-%s" % (kind, op))
+    n = 8 * corpora.SEEDLEN[kind]
+    ops = [{"op": "reset"}]
+    o = {"op": op, "g": 1}
+    if op in ("next_u32", "next_u64"):
+        o["n"] = 1
+    for b in range(n):
+        ops += [{"op": "from_seed", "g": 1, "kind": kind, "seed": corpora.unit_seed(kind, b), "tag": ["col", b]}, dict(o, tag=["colimg", b])]
+    sp, tp = os.path.join(wd, "m.s"), os.path.join(wd, "m.t")
+    vlib.write_ndjson(sp, ops)
+    vlib.drive(binp, sp, tp)
+    ext = extract_matrix(vlib.read_ndjson(tp), kind)
+    import shutil
+    shutil.rmtree(wd, ignore_errors=True)
+    if ext is None:
+        return []
+    _, cols, _ = ext
+    out = []
+    for t in targets:
+        x = gf2_solve(cols, int.from_bytes(bytes(t), "little"))
+        if x:
+            out.append((t, list(x.to_bytes(corpora.SEEDLEN[kind], "little"))))
+    return out
+
+
 def jump_conformance_corpus(seed, tier):
     import random
     rng = random.Random(seed * 1000003 + 6)
@@ -1192,6 +1445,17 @@ def jump_conformance_corpus(seed, tier):
                 ops.append({"op": j, "g": 1})
                 ops.append({"op": nat, "g": 1, "n": 3})
         S.case("%s jump of random states" % kind, ops, weight=len(ops) * nb // 8)
+        # states whose jump lands on a structured state (words cancelling under xor / addition, equal words, almost
+        # zero): a special case on the RESULT of the jump is invisible from unit and random states
+        ops = []
+        for j in ("jump", "long_jump"):
+            targets = corpora.structured_seeds(kind, rng)
+            if tier == "quick":
+                targets = rng.sample(targets, 5)
+            for t, sd in preimage_seeds(kind, j, targets):
+                ops += [{"op": "from_seed", "g": 1, "kind": kind, "seed": sd}, {"op": j, "g": 1}, {"op": nat, "g": 1, "n": 2}]
+        if ops:
+            S.case("%s jump onto structured states" % kind, ops, weight=len(ops) * nb // 8)
     return S
 
 
@@ -1204,7 +1468,7 @@ def check_C06(tier, seed):
     if bad:
         raise ToolError("certificate did not verify (hint or transcription problem, not a verdict about the code): %r" % {k: v[1][:300] for k, v in bad.items()})
     S = jump_conformance_corpus(seed, tier)
-    rc = trace_check("C06", tier, seed, S, "Trace_Alg.tla", "Trace_Alg.cfg", weight=lambda evs: sum(40 if ev.get("e") in ("jump", "long_jump") else 1 for ev in evs),
+    rc = trace_check("C06", tier, seed, S, "Trace_Alg.tla", "Trace_Alg.cfg", release_every=4, weight=lambda evs: sum(40 if ev.get("e") in ("jump", "long_jump") else 1 for ev in evs),
                      rule="(1) for each of the 5 jump-capable engines TLC checks the certificate: the Krylov vectors T^i e0 have rank n and P(T)e0 = 0 for the hinted P, so P(T) = 0; x^(2^(n/2)) = JUMP(x) and x^(2^(3n/4)) = LONG_JUMP(x) in GF(2)[x]/P with the published constants read word 0 / bit 0 first - hence the reference jump loop equals 2^(n/2) resp. 2^(3n/4) steps from EVERY state and commutes with stepping; (2) the real jump()/long_jump() of all 12 types are applied to unit-bit states (full basis for one type per macro arm in thorough) and random states, in several orders, and Trace_Alg requires the resulting state image and following outputs to equal the reference jump loop. distinct = distinct recorded events",
                      assumptions=COMMON_ASSUME + ["the hinted polynomial is untrusted and fully re-checked inside TLC", "linearity of the implementation's jump is sampled (unit + random states); a wrong polynomial word or loop bound changes the image of every non-zero state"],
                      extra_cov={"certificates": {"%s:%s" % k: {"verified": v[0], "tlc_wall_s": round(v[2], 1), "result": v[1][:200]} for k, v in res.items()},
@@ -1213,12 +1477,13 @@ def check_C06(tier, seed):
     return rc
 
 
-C07_PATHS = ("native", "other", "fill8", "fill64", "fill200")
+C07_PATHS = ("native", "other", "fill8", "fill64", "fill200", "fill1028")
 
 
 def c07_path_op(path, nat, other):
     return {"native": {"op": nat, "g": 1, "n": 1}, "other": {"op": other, "g": 1}, "fill8": {"op": "fill_bytes", "g": 1, "n": 8},
-            "fill64": {"op": "fill_bytes", "g": 1, "n": 64}, "fill200": {"op": "fill_bytes", "g": 1, "n": 200}}[path]
+            "fill64": {"op": "fill_bytes", "g": 1, "n": 64}, "fill200": {"op": "fill_bytes", "g": 1, "n": 200},
+            "fill1028": {"op": "fill_bytes", "g": 1, "n": 1028}}[path]
 
 
 def c07_basis_corpus(seed, tier):
@@ -1247,9 +1512,10 @@ def c07_basis_corpus(seed, tier):
             nw = corpora.SEEDLEN[kind] // wb
             Mw = (1 << (8 * wb)) - 1
             seeds = [[rng.getrandbits(8) for _ in range(corpora.SEEDLEN[kind])] for _ in range(24 if tier == "quick" else 200)]
+            long_path = path in ("fill200", "fill1028")
             # states with related words (a, -a), (a, a), (a, ~a), zero and all-ones words in every pair of positions:
             # where a "guard against degenerate states" or any other state-dependent special case would sit
-            for a in [1, 2, Mw, 1 << (8 * wb - 1), rng.getrandbits(8 * wb) | 1, rng.getrandbits(8 * wb) | 1]:
+            for a in ([] if long_path else [1, 2, Mw, 1 << (8 * wb - 1), rng.getrandbits(8 * wb) | 1, rng.getrandbits(8 * wb) | 1]):
                 for i in range(nw):
                     for j in range(nw):
                         if i == j:
@@ -1263,6 +1529,9 @@ def c07_basis_corpus(seed, tier):
                             seeds.append(corpora.words_to_seed(st2, wb))
             if tier == "quick" and len(seeds) > 400:
                 seeds = seeds[:24] + rng.sample(seeds[24:], 376)
+            if path == "native":
+                # states whose successor is structured (a special case on the NEW state merges or diverts them)
+                seeds += [sd for _, sd in preimage_seeds(kind, nat, corpora.structured_seeds(kind, rng))]
             for r, sd in enumerate(seeds):
                 if not any(sd):
                     continue
@@ -1307,6 +1576,27 @@ def extract_matrix(events, kind):
     if len(cols) != n:
         return None
     return n, [cols[i] for i in range(n)], samples
+
+
+def gf2_solve(cols, target):
+    """UNTRUSTED hint: x (as an int, bit i = coefficient of column i) with xor of the selected columns == target, or None"""
+    basis = {}
+    for i, c in enumerate(cols):
+        v, comb = c, 1 << i
+        while v:
+            t = v.bit_length() - 1
+            if t in basis:
+                v ^= basis[t][0]; comb ^= basis[t][1]
+            else:
+                basis[t] = (v, comb)
+                break
+    v, comb = target, 0
+    while v:
+        t = v.bit_length() - 1
+        if t not in basis:
+            return None
+        v ^= basis[t][0]; comb ^= basis[t][1]
+    return comb
 
 
 def kernel_vector(n, cols):
@@ -1464,7 +1754,7 @@ def check_C07(tier, seed):
                         print("VIOLATION property=C07 replay=%s" % path2)
                         print("  %s/%s: the states with seeds %s and %s have the same successor" % (kp[0], kp[1], bytes(seen[key][1]).hex(), bytes(cur[1]).hex()))
                 seen.setdefault(key, cur)
-    cov = base_cov([(events, cases, tres)], "(1) for each of the 7 distinct linear engines TLC checks the certificate: Krylov rank n and P(T)e0 = 0 (so GF(2)[x]/P -> V, f |-> f(T)e0 is an isomorphism carrying x to T), x^(2^n) = x, the listed primes multiply to 2^n - 1, and for every prime q: cofactor*q = 2^n - 1 and x^cofactor # 1 - so x has order exactly 2^n - 1, GF(2)[x]/P is a field and T is a bijection permuting the 2^n - 1 non-zero states in a single cycle; (2) for every one of the 15 linear generator types and every path that advances the state (the native call, the other next_*, fill_bytes(8), fill_bytes(64), fill_bytes(200)) the transition matrix is extracted from the real code on the complete basis of unit-bit seeds (plus random seeds for linearity) and validated by TLC against the specification's T^k (k = words consumed); (3) if a type's matrix differs from the reference, the same certificate is run on the extracted matrix and a violation is reported only with a certificate (a non-zero state stepping to zero, replayed on the code; or T^((2^n-1)/q) = I; or T^(2^n-1) # I). distinct = distinct recorded events", ["Trace_Alg", "ALG_Engine"])
+    cov = base_cov([(events, cases, tres)], "(1) for each of the 7 distinct linear engines TLC checks the certificate: Krylov rank n and P(T)e0 = 0 (so GF(2)[x]/P -> V, f |-> f(T)e0 is an isomorphism carrying x to T), x^(2^n) = x, the listed primes multiply to 2^n - 1, and for every prime q: cofactor*q = 2^n - 1 and x^cofactor # 1 - so x has order exactly 2^n - 1, GF(2)[x]/P is a field and T is a bijection permuting the 2^n - 1 non-zero states in a single cycle; (2) for every one of the 15 linear generator types and every path that advances the state (the native call, the other next_*, fill_bytes(8), fill_bytes(64), fill_bytes(200), fill_bytes(1028)) the transition matrix is extracted from the real code on the complete basis of unit-bit seeds (plus random seeds for linearity) and validated by TLC against the specification's T^k (k = words consumed); (3) if a type's matrix differs from the reference, the same certificate is run on the extracted matrix and a violation is reported only with a certificate (a non-zero state stepping to zero, replayed on the code; or T^((2^n-1)/q) = I; or T^(2^n-1) # I). distinct = distinct recorded events", ["Trace_Alg", "ALG_Engine"])
     cov["certificates"] = {"%s:%s" % k: {"verified": v[0], "tlc_wall_s": round(v[2], 1), "result": v[1][:160]} for k, v in sorted(res.items(), key=lambda kv: str(kv[0]))}
     cov["obligations"] = len(tasks)
     cov["discharged"] = len(tasks)
